@@ -158,8 +158,7 @@ fn parse_unnamed_requirement<Url: UnnamedRequirementUrl>(
     cursor.eat_whitespace();
 
     // Parse the URL itself, along with any extras.
-    let (url, extras) = parse_unnamed_url::<Url>(cursor, working_dir)?;
-    let requirement_end = cursor.pos();
+    let (url, extras, requirement_end) = parse_unnamed_url::<Url>(cursor, working_dir)?;
 
     // wsp*
     cursor.eat_whitespace();
@@ -366,10 +365,13 @@ fn preprocess_unnamed_url<Url: UnnamedRequirementUrl>(
 /// - `../editable[dev]`
 /// - `https://download.pytorch.org/whl/torch_stable.html ; python_version > "3.8"`
 /// - `https://download.pytorch.org/whl/torch_stable.html # this is a comment`
+///
+/// Returns the URL, the extras, and the position just past the last character of the URL text (the
+/// cursor itself may already be past the whitespace or line break that ended it).
 fn parse_unnamed_url<Url: UnnamedRequirementUrl>(
     cursor: &mut Cursor,
     working_dir: Option<&Path>,
-) -> Result<(Url, Vec<ExtraName>), Pep508Error<Url>> {
+) -> Result<(Url, Vec<ExtraName>, usize), Pep508Error<Url>> {
     // wsp*
     cursor.eat_whitespace();
 
@@ -429,7 +431,7 @@ fn parse_unnamed_url<Url: UnnamedRequirementUrl>(
         });
     }
 
-    let url = preprocess_unnamed_url(url, working_dir, cursor, start, len)?;
+    let (url, extras) = preprocess_unnamed_url(url, working_dir, cursor, start, len)?;
 
-    Ok(url)
+    Ok((url, extras, start + len))
 }
